@@ -55,6 +55,11 @@ var tcpSeq int
 // NewTCPProc starts a real TCP processor (proc.New, public API) in front of the given hosts.
 func NewTCPProc(policy service.LoadBalancePolicy, idle time.Duration, limit uint32, hosts []*host.Host) (proc.Proc, error) {
 	tcpSeq++
+	return NewTCPProcNamed(fmt.Sprintf("verif-tcp-%d", tcpSeq), policy, idle, limit, hosts)
+}
+
+// NewTCPProcNamed: the same under a given service name.
+func NewTCPProcNamed(name string, policy service.LoadBalancePolicy, idle time.Duration, limit uint32, hosts []*host.Host) (proc.Proc, error) {
 	ct := 500 * time.Millisecond
 	cfg := &service.Config{
 		Listener:        &service.Listener{Address: &common.Address{Ip: "127.0.0.1", Port: 0}, ConnectionLimit: limit},
@@ -64,7 +69,7 @@ func NewTCPProc(policy service.LoadBalancePolicy, idle time.Duration, limit uint
 		Protocol:        protocol.TCP,
 		ProtocolOptions: &service.Config_TcpOption{TcpOption: &protocol.TCPOption{}},
 	}
-	p, err := proc.New(fmt.Sprintf("verif-tcp-%d", tcpSeq), cfg, hosts)
+	p, err := proc.New(name, cfg, hosts)
 	if err != nil {
 		return nil, err
 	}
